@@ -3,6 +3,8 @@ package mon
 import (
 	"github.com/tyler-sommer/stick"
 	"github.com/tyler-sommer/stick/twig"
+	"sort"
+	"strings"
 
 	"verifharness/model"
 )
@@ -53,6 +55,15 @@ func (r *Recorder) Register(env *stick.Env) {
 			}
 		}
 		return out
+	}
+	// names() lists every name the scope holds at this point (sorted): nothing may be defined on the side
+	env.Functions["names"] = func(ctx stick.Context, args ...stick.Value) stick.Value {
+		var ns []string
+		for n := range ctx.Scope().All() {
+			ns = append(ns, n)
+		}
+		sort.Strings(ns)
+		return strings.Join(ns, ",")
 	}
 	for _, name := range model.FilterNames {
 		name := name
